@@ -5,6 +5,7 @@ pub mod c01;
 pub mod c05;
 pub mod c06;
 pub mod c08;
+pub mod c09;
 pub mod c12;
 pub mod c13;
 pub mod c14;
@@ -16,6 +17,7 @@ pub fn all() -> Vec<Arc<dyn Prop>> {
         Arc::new(c05::C05),
         Arc::new(c06::C06),
         Arc::new(c08::C08),
+        Arc::new(c09::C09),
         Arc::new(c12::C12),
         Arc::new(c13::C13),
         Arc::new(c14::C14),
